@@ -155,3 +155,14 @@ claim("C10",
       "insertion order under CrossHair and hash order in CPython - both covered by varying namings/orders, replays try all",
       "CrossHair symbolic execution (z3) of the real create_checkpoint orphan gate over solver-chosen forests and update sequences",
       "DESIGN.md §3 C10")
+claim("C09",
+      "(a) SX over real ExecutionCounters/BatchResult: for every (total<=5, successes, failures) and symbolic policy the executor stops exactly when the policy is "
+      "decided and the reported reason is truthful for the items; (b) z3 QF_BVFP query generated from the AST of the three percentage tests vs the exact rational "
+      "comparison (f<=t<=128, pct 0..100); (c) executor world: the REAL execute/_on_task_complete/_create_result/child_handler with a modelled thread pool: 0..2 "
+      "branches (3 thorough) x behaviours (succeed/fail/never finish/park) x policy x max_concurrency x completion order, done-callbacks coroutine-lowered and "
+      "preempted at a solver-chosen point: released exactly when decided, pool size = limit, one item per input in order carrying the branch's own result/error, "
+      "unfinished => started, reason consistent, zero items => empty result; (d) real replay() rebuilds the same batch result.",
+      "thread pool/futures/timer thread are models of the concurrent.futures contract; branch bodies run atomically when they finish; integer percentages; "
+      "policy semantics as documented in ExecutionCounters (no tolerance configured = fail fast)",
+      "CrossHair symbolic execution (z3) of the real executor/counters code under a solver-driven pool model + z3 FP query from the AST",
+      "DESIGN.md §3 C09")
